@@ -235,7 +235,7 @@ impl Buildinfo {
     pub fn installed_build_depends(&self) -> Option<Relations> {
         self.0
             .get("Installed-Build-Depends")
-            .map(|s| s.parse().unwrap())
+            .map(|s| Relations::parse_relaxed(&s, true).0)
     }
 
     /// Set the list of installed build depends
